@@ -46,14 +46,9 @@ Fixpoint span_dig (l : text) : text * text :=
 
 Definition is_nil {A} (l : list A) : bool := match l with [] => true | _ => false end.
 
-(** [Decimal(s)] for a str: [None] is InvalidOperation *)
-Definition dec_parse (s : text) : option dec :=
-  let s := strip s in
-  let '(neg, r) := match s with
-                   | 45 :: r => (true, r)
-                   | 43 :: r => (false, r)
-                   | _ => (false, s)
-                   end in
+(** the unsigned part of the literal: digits [. digits] [(e|E) [sign] digits], at least one
+    digit before the exponent; the result is (coefficient, exponent) *)
+Definition dec_parse_unsigned (r : text) : option (Z * Z) :=
   let '(ip, r1) := span_dig r in
   let '(fp, r2) := match r1 with
                    | 46 :: r' => span_dig r'
@@ -63,7 +58,7 @@ Definition dec_parse (s : text) : option dec :=
   else
     let coef := val_digits 0 (ip ++ fp) in
     match r2 with
-    | [] => Some (mkdec neg coef (- len fp))
+    | [] => Some (coef, - len fp)
     | c :: r3 =>
         if (c =? 69) || (c =? 101) then
           let '(eneg, r4) := match r3 with
@@ -75,6 +70,19 @@ Definition dec_parse (s : text) : option dec :=
           if is_nil ed || negb (is_nil r5) then None
           else
             let e := val_digits 0 ed in
-            Some (mkdec neg coef ((if eneg then - e else e) - len fp))
+            Some (coef, (if eneg then - e else e) - len fp)
         else None
     end.
+
+(** [Decimal(s)] for a str: [None] is InvalidOperation *)
+Definition dec_parse (s : text) : option dec :=
+  let s := strip s in
+  let '(neg, r) := match s with
+                   | 45 :: r => (true, r)
+                   | 43 :: r => (false, r)
+                   | _ => (false, s)
+                   end in
+  match dec_parse_unsigned r with
+  | Some (coef, e) => Some (mkdec neg coef e)
+  | None => None
+  end.
